@@ -300,13 +300,13 @@ type verifSim struct {
 	src   *verifSource
 	procs []verifProcRec
 	sweep *verifSweepPoint
-	cfg  int
-	root string
-	dev  snap.Device
-	mock *bootloadertest.MockBootloader
-	grub *bootloadertest.MockExtractedRunKernelImageBootloader
-	f    *verifFaulter
-	tr   [2]*verifTrack
+	cfg   int
+	root  string
+	dev   snap.Device
+	mock  *bootloadertest.MockBootloader
+	grub  *bootloadertest.MockExtractedRunKernelImageBootloader
+	f     *verifFaulter
+	tr    [2]*verifTrack
 
 	faults, maxFaults int
 	// a kernel SetNextBoot asked for a reboot with bootloader options: the
@@ -693,7 +693,7 @@ func (s *verifSim) doBoot(why string, orderlyForUpdate bool) {
 			}
 			if kbad {
 				c.Count("fault:boot-failure-kernel")
-			s.bootFailures++
+				s.bootFailures++
 				c.Logf("  kernel %s dies after the initramfs", fw.kernel)
 				s.attemptFailed("bad kernel")
 				continue
@@ -1045,10 +1045,8 @@ func verifExec(c *verifsim.Ctx, src *verifSource, sweep *verifSweepPoint) ([]ver
 						t.bad[target] = true
 					}
 				} else {
+					// out of new revisions: another try of the newest one
 					target = t.file(6)
-					if t.everGood[target] || t.bad[target] {
-						// fine either way: just another try of a known revision
-					}
 				}
 			}
 			track := 0
